@@ -220,7 +220,7 @@ func runCase(c *vc.Ctx, cs Case, perCase time.Duration) (*caseResult, error) {
 		cur.BudgetS = int(left / time.Second)
 		res, err := runWorker(&cur)
 		if err != nil {
-			return nil, err
+			return nil, fmt.Errorf("case %s [%s]: %w", cs.Name, oneLine(cs.Prog), err)
 		}
 		total.slices++
 		total.Executions += res.Executions
@@ -341,10 +341,13 @@ func coordinate(c *vc.Ctx, cases []Case) {
 		}
 		sort.Strings(sigs)
 		class := ""
-		if cs.Prop == "C27" && strings.HasPrefix(cs.Name, "pipe-last/") && len(sigs) == 1 && sigs[0] == "outcome" {
+		if cs.Prop == "C27" && (strings.HasPrefix(cs.Name, "pipe-last/") || strings.HasPrefix(cs.Name, "local:pipe-last/")) && len(sigs) == 1 && sigs[0] == "outcome" {
 			// one recorded finding covers the family: the last stage of a
 			// pipeline runs in the parent shell itself
 			class = "pipe-last-runs-in-parent"
+		}
+		if cs.Prop == "C31" && len(sigs) == 1 && sigs[0] == "cancel-no-error" && cancelSwallowedShape(cs.Name) {
+			class = "cancel-observed-as-ordinary-failure"
 		}
 		return &vc.Fail{
 			Class:  class,
@@ -408,6 +411,32 @@ func replayFile(c *vc.Ctx) {
 		os.Exit(1)
 	}
 	os.Exit(0)
+}
+
+// cancelSwallowedShape reports whether a C31 program has one of the shapes in
+// which the cancellation is observed by a command whose failure the shell
+// language itself turns into success (wait returns 0, a `while read` loop
+// ends normally, a pipeline takes the status of its last stage, a background
+// job / process substitution / trap handler / `if` condition does not
+// propagate its status): for those Run returns promptly but with a nil
+// error. Every other shape (a plain loop, read, sleep, cat, command
+// substitution, function, subshell, eval, ...) must return an error.
+func cancelSwallowedShape(name string) bool {
+	name = strings.TrimPrefix(name, "second-run-fn:")
+	name = strings.TrimPrefix(name, "second-run:")
+	w, b, ok := strings.Cut(name, "/")
+	if !ok {
+		return false
+	}
+	switch w {
+	case "background-wait", "procsubst-in", "in-exit-trap", "in-exit-trap-after-exit", "in-err-trap", "pipe-left", "pipe-right", "if-cond":
+		return true
+	}
+	switch b {
+	case "wait-job", "wait-jobid", "wait-reader", "read-loop", "select-like", "procsubst-unread":
+		return true
+	}
+	return false
 }
 
 func oneLine(s string) string {
